@@ -107,8 +107,16 @@ class OggTheoraCommentDict(VCommentDict):
         """Write tag data into the Theora comment packet/page."""
 
         fileobj.seek(0)
+        # The comment belongs to the stream loading reads it from: the
+        # first one with a Theora identification header.
         page = OggPage(fileobj)
         while not page.packets or \
+                not page.packets[0].startswith(b"\x80theora"):
+            page = OggPage(fileobj)
+        serial = page.serial
+
+        page = OggPage(fileobj)
+        while page.serial != serial or not page.packets or \
                 not page.packets[0].startswith(b"\x81theora"):
             page = OggPage(fileobj)
 
